@@ -97,6 +97,8 @@ def sample_def(rng, did, nmax=8, perr=None, phf=False, fieldless=False, default_
             v["kind"], v["fields"], v["nf"], v["dwith"] = "unit", [], 0, ""
         vs.append(v)
     style = rng.choice((styles or (["none"] * 6 + STYLES + ALIASES)))
+    if phf is None:
+        phf = generics == "none" and all(v["kind"] == "unit" or v["def"] for v in vs) and rng.random() < 0.5
     E = enum(did, vs, style=style, aci=rng.random() < 0.3, phf=phf, generics=generics, split=rng.randrange(2),
              perr=(rng.random() < 0.4 if perr is None else perr) and not has_def)
     return ensure_generic_use(rng, E)
@@ -302,7 +304,7 @@ def gen_inputs(E, facts, rng, cap, flip_limit=6):
 
 # --------------------------------------------------------------------------- names corpus (C02, C03)
 NAME_LITS = ["b", "bl", "blu", "blue", "bluer", "x", "Light Blue", "é", "éé", "zzzzzzzz", "Q", "q1", "ALLCAPS", "mi-xed_Case",
-             "", "ß", "with space ", "1", "a.b", "tab\there", "quote\"d", "uni\u212a", "semi;", "🦀", "long_long_long_long"]
+             "", "ß", "with space ", "1", "a.b", "set{{}}", "{{x}}", "tab\there", "quote\"d", "uni\u212a", "semi;", "🦀", "long_long_long_long"]
 PREFIXES = [None, None, None, "", "pre_", "P", "é-", "ns::", " "]
 
 
